@@ -58,6 +58,12 @@ def main():
             for k, v in hits.items():
                 total[k] += v
                 per_prop[k].add(prop)
+    import os
+    show = os.environ.get("CELLCOV_SHOW")
+    if show:
+        for k in sorted(total):
+            if show in k:
+                print("hits %-90s %6d  %s" % (k, total[k], ",".join(sorted(per_prop[k]))))
     summary = {}
     for tname in ("WORKFLOW_STATE_MACHINE_DATA", "TASK_STATE_MACHINE_DATA"):
         t = getattr(machines, tname)
